@@ -196,5 +196,11 @@ def gen_system(tier, seed):
         # the checks are queries: the balance computed afterwards is the one computed before
         lines.append("balance")
         lines.append("cmb - 0")
+        if r.random() < 0.35:
+            # the same system with every value rescaled (other units, a later scenario): tolerance and verdicts follow
+            k = r.choice([40, 30, -30, -40, 20])
+            lines.append("sys_scale " + (str(2 ** k) if k > 0 else f"1/{2 ** (-k)}"))
+            lines += ["tol", "cmb - 0", "cmb - 1", "cf - 0", "balance"]
+            stats["rescaled"] = stats.get("rescaled", 0) + 1
         stats["cases"] += 1
     return [ln.rstrip() for ln in lines], stats
